@@ -6,6 +6,7 @@ package main
 import (
 	"fmt"
 	"math/rand"
+	"net"
 	"os"
 	"runtime"
 	"sync"
@@ -16,6 +17,7 @@ import (
 	"mangosverif/wire"
 
 	"go.nanomsg.org/mangos/v3"
+	"go.nanomsg.org/mangos/v3/transport"
 )
 
 type pair struct{ a, b string }
@@ -305,6 +307,49 @@ func endpointRaces(tr string, seed int64) string {
 	return ""
 }
 
+// handshakeRaces: a handshaker (what every stream listener and dialer uses) is closed while handshakes are completing:
+// Close walks the connections still in the work queue while their workers finish.
+func handshakeRaces(seed int64) string {
+	r := rand.New(rand.NewSource(seed))
+	pi := transport.ProtocolInfo{Self: 16, Peer: 16, SelfName: "pair", PeerName: "pair"}
+	for round := 0; round < 12; round++ {
+		hs := transport.NewConnHandshaker()
+		var wg sync.WaitGroup
+		fire := make(chan struct{})
+		for i := 0; i < 48; i++ {
+			a, b := net.Pipe()
+			hs.Start(transport.NewConnPipe(a, pi))
+			wg.Add(1)
+			d := time.Duration(r.Intn(200)) * time.Microsecond
+			go func(c net.Conn, d time.Duration) {
+				defer wg.Done()
+				buf := make([]byte, 8)
+				go func() { _, _ = c.Read(buf) }()
+				<-fire
+				time.Sleep(d)
+				_, _ = c.Write([]byte{0, 'S', 'P', 0, 0, 16, 0, 0})
+				time.Sleep(2 * time.Millisecond)
+				_ = c.Close()
+			}(b, d)
+		}
+		time.Sleep(3 * time.Millisecond)
+		close(fire)
+		time.Sleep(time.Duration(r.Intn(200)) * time.Microsecond)
+		done := make(chan struct{})
+		go func() { guard("handshaker close", func() { hs.Close() }); close(done) }()
+		select {
+		case <-done:
+		case <-time.After(5 * time.Second):
+			buf := make([]byte, 1<<20)
+			n := runtime.Stack(buf, true)
+			fmt.Fprintf(os.Stderr, "C11-DEADLOCK handshaker Close did not return within 5s\n%s\n", buf[:n])
+			return "deadlock"
+		}
+		wg.Wait()
+	}
+	return ""
+}
+
 func snapshotPipes(e *wire.Events) []mangos.Pipe {
 	var ps []mangos.Pipe
 	e.Wait(0, func(ev *wire.Events) bool { ps = append(ps, ev.Pipes...); return true })
@@ -330,6 +375,10 @@ func main() {
 			res := endpointRaces(tr, seed*77+int64(i))
 			fmt.Printf("scenario endpoints/%s %s\n", tr, map[bool]string{true: "ok", false: res}[res == ""])
 		}
+	}
+	if only == "" || only == "endpoints" {
+		res := handshakeRaces(seed*91 + 5)
+		fmt.Printf("scenario endpoints/handshaker %s\n", map[bool]string{true: "ok", false: res}[res == ""])
 	}
 	fmt.Printf("panics %d\n", atomic.LoadInt32(&panics))
 }
